@@ -159,7 +159,7 @@ def st_token_sample(ctx, n, shapes, tokens, label="toksample", lo=3, hi=9):
 
 VALUE_UNIVERSE = ["", "a", "A", "a/b", "/", "//a//", "a/./b/../c", "..", ".", "x y", "a&b=c", "a%2Fb", "%", "@1", "?q#f", "é", "ǅ",
                   "İK", "A_.-b", "1.0", "sha1:AB,md5:00", "sha1:zz", "a:0", ":", "\x00\x7f", "+", "😀"]
-KEY_UNIVERSE = ["k", "K", "key", "Key", "checksum", "Checksum", "CHECKSUM", "repository_url", "a.b", "a-b", "a_b", "1a", "", "a b",
+KEY_UNIVERSE = ["a_b", "aab", "AAB", "A_B", "a_", "aa", "k", "K", "key", "Key", "checksum", "Checksum", "CHECKSUM", "repository_url", "a.b", "a-b", "a_b", "1a", "", "a b",
                 "é", "k%41", "a=b", "zz", "type"]
 
 
@@ -307,7 +307,7 @@ def st_quals(ctx, n, label="quals", maxsteps=8, documented_panics=False):
     return out
 
 
-Q_EXH_KEYS = ["a", "A", "b", "B", "ab", "", "a b", "checksum"]
+Q_EXH_KEYS = ["a", "A", "b", "B", "ab", "", "a b", "a_", "AA"]
 Q_EXH_VALS = ["", "1"]
 
 
@@ -612,4 +612,165 @@ def st_ascii_pairs():
         for b in range(128):
             v = hx(chr(a) + chr(b))
             out.append(case("build S %s %s ns:%s;ver:%s;sub:%s;q:%s:%s" % (hx("t"), v, v, v, v, hx("k"), v), "ascii-pairs"))
+    return out
+
+
+# ---------------------------------------------------------------- fault injection (C05)
+
+BAD_UTF8 = ["%80", "%BF", "%C3", "%c3", "%E2%82", "%e2%82", "%F0%9F%98", "%C0%AF", "%c0%af", "%E0%80%AF", "%ED%A0%80", "%ed%a0%80",
+            "%F4%90%80%80", "%f4%90%80%80", "%FF", "%fe", "%C3%28", "%E2%28%A1", "%F8%88%80%80%80"]
+BAD_TYPE_CHARS = ["!", "$", "_", "~", "*", ":", ",", " ", "é", "%41", "%2B", "&", "=", "\x00", "\u212a", "(", "\\"]
+BAD_KEY_ITEMS = ["k!=v", "=v", "%6B=v", "é=v", "a b=v", "k%41=v", "a+b=v", "k:=v", "a/b=v", "=", "K K=1"]
+BAD_CHECKSUMS = ["sha1", "sha1:abc", "sha1:zz", "sha1:0g", "a:00,b", "a:00,A:11", "sha1:00,SHA1:00", "a:0", "md5:00,sha1:ABCDE", "a:é", "a:00,,b:11",
+                 "ǅ:00,ǆ:11"]
+FAULT_KINDS = ["scheme", "notype", "badtype", "noname", "qual-noeq", "qual-badkey", "qual-dup", "utf8", "slash", "checksum"]
+
+
+def inject(r, kind_wanted, idx_wanted, text_fn):
+    done = {"n": 0}
+
+    def hook(kind, i, raw, ctx, spelled):
+        if kind == kind_wanted and i == idx_wanted:
+            done["n"] += 1
+            return text_fn(raw, ctx)
+        return spelled
+    return hook, done
+
+
+def fault_case(r, kind, shape):
+    """(string, expected error name for the type-agnostic parser) or None"""
+    ty = flipcase(r, r.pick(["cargo", "gem", "golang", "npm", "nuget", "pypi"])) if shape == "P" else None
+    t = rand_tuple(r, plain=r.chance(1, 2), ty=ty)
+    fr = default_freedoms(r)
+    if kind == "scheme":
+        P, _, _ = spell_parts(r, t, fr)
+        P["scheme"] = r.pick(["", "pkg", "http:", "pk:", " pkg:", "xpkg:", "pkg;", "p", "pkg/", ":pkg:", "gkp:"])
+        return assemble(P), "UnsupportedUrlScheme", "scheme"
+    if kind == "notype":
+        P, _, _ = spell_parts(r, t, fr)
+        o = "pkg:" + "/" * r.below(3)
+        if P["items"] is not None:
+            o += "?" + "&".join(P["items"])
+        if P["sub"] is not None:
+            pre, pieces, post = P["sub"]
+            o += "#" + pre + "/".join(pieces) + post
+        return o, "MissingRequiredField.PackageType", "notype"
+    if kind == "badtype":
+        P, _, _ = spell_parts(r, t, fr)
+        i = r.below(len(P["type"]) + 1)
+        P["type"] = P["type"][:i] + r.pick(BAD_TYPE_CHARS) + P["type"][i:]
+        return assemble(P), "InvalidPackageType", "badtype"
+    if kind == "noname":
+        P, _, _ = spell_parts(r, t, fr)
+        m = r.below(3)
+        if m == 0:
+            # no '/' after the type at all
+            o = "pkg:" + P["lead"] + P["type"]
+            if P["version"] is not None and "/" not in P["version"]:
+                o += "@" + P["version"]
+        else:
+            # empty name piece
+            o = "pkg:" + P["lead"] + P["type"] + "/" + "".join(seg + "/" for seg in P["ns"]) + P["ns_tail"]
+            if P["version"] is not None:
+                o += "@" + P["version"]
+        if P["items"] is not None:
+            o += "?" + "&".join(P["items"])
+        if P["sub"] is not None:
+            pre, pieces, post = P["sub"]
+            o += "#" + pre + "/".join(pieces) + post
+        return o, "MissingRequiredField.Name", "noname"
+    if kind in ("qual-noeq", "qual-badkey", "qual-dup"):
+        if not t.quals:
+            t.quals.append(("k", "v"))
+        P, _, ctx = spell_parts(r, t, fr)
+        items = P["items"]
+        if kind == "qual-noeq":
+            items.insert(r.below(len(items) + 1), r.pick(["k", "key", "a.b", "zz9", "", "a%3Db"]))
+        elif kind == "qual-badkey":
+            items.insert(r.below(len(items) + 1), r.pick(BAD_KEY_ITEMS))
+        else:
+            # a second non-empty value for an existing non-empty key, in another letter case
+            cand = [it for it in items if not it.endswith("=")]
+            if not cand:
+                items.append("dupk=v")
+                cand = ["dupk=v"]
+            it = r.pick(cand)
+            k = it.split("=", 1)[0]
+            items.insert(r.below(len(items) + 1), flipcase(r, k) + "=" + r.pick(["1", "x", "%41"]))
+        return assemble(P), "InvalidQualifier", kind
+    if kind == "utf8":
+        slots = [("name", 0)] + [("ns", i) for i in range(len(t.ns))] + ([("version", 0)] if t.version is not None else []) \
+            + [("qval", i) for i, (k, v) in enumerate(t.quals) if v is not None] + [("sub", i) for i in range(len(t.sub))]
+        pos, idx = r.pick(slots)
+        bad = r.pick(BAD_UTF8)
+
+        def fn(raw, ctx):
+            i = r.below(len(raw) + 1)
+            posk = pos
+            return spell_component(r, posk, raw[:i], ctx, fr["pct"]) + bad + spell_component(r, posk, raw[i:], ctx, fr["pct"])
+        hook, done = inject(r, pos, idx, fn)
+        P, _, _ = spell_parts(r, t, fr, hook)
+        return assemble(P), "InvalidEscape", "utf8-" + pos
+    if kind == "slash":
+        slots = [("ns", i) for i in range(len(t.ns))] + [("sub", i) for i in range(len(t.sub))]
+        if not slots:
+            t.ns.append("s")
+            slots = [("ns", 0)]
+        pos, idx = r.pick(slots)
+        bad = r.pick(["%2F", "%2f"])
+
+        def fn(raw, ctx):
+            i = r.below(len(raw) + 1)
+            return spell_component(r, pos, raw[:i], ctx, fr["pct"]) + bad + spell_component(r, pos, raw[i:], ctx, fr["pct"])
+        hook, done = inject(r, pos, idx, fn)
+        P, _, _ = spell_parts(r, t, fr, hook)
+        return assemble(P), "InvalidEscape", "slash-" + pos
+    if kind == "checksum":
+        t.quals = [(k, v) for k, v in t.quals if k.lower() != "checksum"]
+        t.quals.append((flipcase(r, "checksum"), r.pick(BAD_CHECKSUMS)))
+        P, _, _ = spell_parts(r, t, fr)
+        return assemble(P), "InvalidQualifier", "checksum"
+    raise ValueError(kind)
+
+
+def st_faults(ctx, n, shapes, label="faults"):
+    r = ctx.rng(label)
+    out = []
+    while len(out) < n:
+        for kind in FAULT_KINDS:
+            sh = r.pick(shapes)
+            s, err, sub = fault_case(r, kind, sh)
+            exp = err if sh != "P" else "Pkg.Parse." + err
+            out.append(case("parse %s %s" % (sh, hx(s)), "fault-" + sub, s=s, shape=sh, expect_err=exp))
+    return out
+
+
+# ---------------------------------------------------------------- namespace / subpath pieces (C07)
+
+PIECES = ["", ".", "..", "%2e", "%2E", ".%2e", "%2E%2e", "%2F", "%2f", "%5C", "x", "a%2fb", "%2e%2e%2f%2e%2e", "y z", "é", "%C3%A9"]
+
+
+def st_pieces(ctx, shapes):
+    out = []
+    small = ["", ".", "..", "%2e", ".%2E", "%2F", "%2f", "%5C", "x", "%2e%2e"]
+    k_ns = 3 if ctx.tier == "quick" else 4
+    for k in range(1, k_ns + 1):
+        for tup in itertools.product(small, repeat=k):
+            mid = "/".join(tup)
+            for sh in shapes:
+                out.append(case("parse %s %s" % (sh, hx("pkg:npm/" + mid + "/n")), "ns-pieces", s="pkg:npm/" + mid + "/n", shape=sh))
+                out.append(case("parse %s %s" % (sh, hx("pkg:npm/n#" + mid)), "sub-pieces", s="pkg:npm/n#" + mid, shape=sh))
+    return out
+
+
+def st_pieces_random(ctx, n, shapes, label="pieces"):
+    r = ctx.rng(label)
+    out = []
+    for _ in range(n):
+        ns = "/".join(r.pick(PIECES) for _ in range(r.below(7)))
+        sub = "/".join(r.pick(PIECES) for _ in range(r.below(7)))
+        s = "pkg:" + r.pick(["npm", "Golang", "t"]) + "/" + (ns + "/" if r.chance(2, 3) else "") + r.pick(["n", "%2E", "a%2Fb", ".."]) \
+            + (r.pick(["@1", "@%2e%2E", ""])) + (r.pick(["?k=v", "?k=%2e%2e/x", ""])) + ("#" + sub if r.chance(2, 3) else "")
+        sh = r.pick(shapes)
+        out.append(case("parse %s %s" % (sh, hx(s)), "pieces-random", s=s, shape=sh))
     return out
